@@ -16,7 +16,8 @@ RULE = ("cases = one entity declaration (CREATE TYPE AS ENUM/OBJECT/TABLE, CREAT
         "IF NOT EXISTS x AUTHORIZATION x COMMENT form, CREATE DATABASE, CREATE [BIGFILE|SMALLFILE] [TEMPORARY] TABLESPACE) in "
         "every name form (plain, qualified, delimited), enum lists of 1..12 values, 1..6 attributes/columns, alone or between "
         "tables; for types, followed by a table using the type at first/middle/last column with options. Exhaustive option "
-        "products first, then seeded random. Non-trivial = every case (each compares a full entity); distinct = distinct DDL text.")
+        "products first, then seeded random. Non-trivial = every case (each compares a full entity); distinct = distinct DDL text."
+        " Added after seeded defects: keyword-case variants of the declarations the pinned tree recognises case-insensitively, keyword-shaped type names, CREATE DOMAIN AS ENUM, the CREATE TYPE property-list form, several declarations per script, run(); run(group_by_type); run() on one object.")
 ASSUMPTIONS = ["keywords are written in upper case, except that tablespace / enum / database / domain declarations are also given in lower, capitalised and random keyword case (recognised case-insensitively on the pinned tree; the tablespace kind word and ENUM are reported as written); keyword case of the other declarations is not quantified by the property and leaks into their output on the pinned tree, so it is not varied",
                "a qualified schema name a.b is reported as project=a, schema_name=b (calibrated convention); AUTHORIZATION key looked up case-insensitively",
                "domain base types are one word with a size (two-word base types are not supported by the grammar and not named)"]
